@@ -89,7 +89,7 @@ func pathElem(t *rapid.T) string {
 	case 0, 1, 2, 3:
 		return "." + rapid.SampledFrom(Keys[:10]).Draw(t, "k")
 	case 4:
-		return ".[" + rapid.SampledFrom(nums[:13]).Draw(t, "i") + "]"
+		return ".[" + rapid.SampledFrom(nums[:10]).Draw(t, "i") + "]"
 	case 5:
 		return ".[]"
 	case 6:
@@ -462,13 +462,13 @@ func luaLoose(t *rapid.T, depth int) string {
 // Generator bound (stated in DESIGN.md, C11): a sequence index is an explicit
 // request for a sequence at least that long, so `.[N] = v` (and, in a writable
 // context, even reading `.[N]`) allocates N nodes. Indices are therefore kept
-// <= 65536: when an expression can turn a number into an index (dynamic index,
+// <= 255 (padding combines multiplicatively with cross products): when an expression can turn a number into an index (dynamic index,
 // setpath, pick) every literal above that bound is replaced.
 
-var hugeLit = regexp.MustCompile(`0[xX][0-9A-Fa-f]{5,}|\d{6,}|\d(\.\d+)?[eE]\+?\d+`)
-var staticIdx = regexp.MustCompile(`^(-?\d{1,5}|"[^"]*"|-?\d{0,5}:-?\d{0,5}|)$`)
+var hugeLit = regexp.MustCompile(`0[xX][0-9A-Fa-f]{3,}|\d{4,}|\d(\.\d+)?[eE]\+?\d+`)
+var staticIdx = regexp.MustCompile(`^(-?\d{1,3}|"[^"]*"|-?\d{0,19}:-?\d{0,19}|)$`)
 
-var dotDigits = regexp.MustCompile(`\.\d{6,}`)
+var dotDigits = regexp.MustCompile(`\.\d{4,}`)
 
 func hasDynamicIndex(e string) bool {
 	if dotDigits.MatchString(e) {
